@@ -258,6 +258,20 @@ parse_next_record_header:
     */
     if (ssl->rec.type == SSL_RECORD_TYPE_CHANGE_CIPHER_SPEC)
     {
+        /* RFC 8446, section 5: change_cipher_spec is only tolerated after
+           the first ClientHello and before the peer's Finished; outside
+           that window it is an unexpected record type. (A server that has
+           sent a HelloRetryRequest is back in the START state, but has
+           already seen a ClientHello.) */
+        if (ssl->hsState == SSL_HS_DONE ||
+                (MATRIX_IS_SERVER(ssl) &&
+                 ssl->hsState == SSL_HS_TLS_1_3_START &&
+                 !ssl->tls13IncorrectDheKeyShare))
+        {
+            psTraceErrr("Unexpected change_cipher_spec record\n");
+            ssl->err = SSL_ALERT_UNEXPECTED_MESSAGE;
+            goto encodeResponse;
+        }
         rc = tls13ParseChangeCipherSpec(ssl, &pb, requiredLen);
         HANDLE_PARSE_RC(rc, SSL_ALERT_ILLEGAL_PARAMETER);
         psTraceInfo("Ignoring change_cipher_spec...\n");
